@@ -526,6 +526,8 @@ def main(tier):
     import probepure
     rep.attempt(probepure.check_probe_pure, rep, mod)
     rep.attempt(probepure.check_trunc_cmp, rep, mod)
+    import c19 as _c19
+    rep.attempt(probepure.check_avail_unsigned, rep, mod, _c19.field_offsets('struct isal_zstream', ['avail_in', 'avail_out']), _c19.field_offsets('struct inflate_state', ['avail_in', 'avail_out']))
     import c02
     rep.attempt(c02.check_rollback, rep)      # the output-overflow exits of the asm decoders (R-PARKED-EXITCODE, R-PARK-EOB-ADJUST)
     import asmlin, c19
